@@ -147,7 +147,7 @@ def assemble(env, parent, txs, ts, miner_fields=None, overrides=None, mine=True,
     for _ in range(max_tries):
         summary = BlockSummary(height, prev, merkle, ts, target, nonce)
         sb = summary.serialize()
-        ev = spec.evidence(sb, ev_height, by_height, txb, env.scrypt)
+        ev = spec.evidence(sb, ev_height, ov.get('sample_chain', by_height), txb, env.scrypt)
         if 'evidence' in ov:
             ev = ov['evidence'](ev)
         header = BlockHeader(summary, PowEvidence(*ev))
@@ -208,6 +208,8 @@ class TreeGen:
             txs, fees = self.random_txs(parent)
         ts = parent.view.time + (dt if dt is not None else rng.choice([1, 60, 100, 120, 150, 200, 300]))
         height = parent.height + 1
+        if miner is None and getattr(self, 'malformed_rewards', False) and rng.random() < 0.2:
+            miner = MALFORMED_PK
         cb = coinbase(height, self.env.subsidy(height) + fees + reward_delta, miner or rng.choice(self.keys.pks),
                       data=bytes([rng.randrange(256) for _ in range(rng.choice([0, 3, 8]))]) + b'#%d' % len(self.nodes))
         blk = assemble(self.env, parent, [cb] + txs, ts)
